@@ -166,6 +166,8 @@ def show(t, depth: int = 0) -> str:
     o = t[0]
     if depth > 12:
         return "…"
+    if not isinstance(o, str):
+        return "(" + ", ".join(show(x, depth + 1) if isinstance(x, tuple) else repr(x) for x in t) + ")"
     s = lambda x: show(x, depth + 1)  # noqa: E731
     if o == "const":
         return repr(t[1])
